@@ -44,11 +44,11 @@ class DummyState(State):
         return 0.0
 
 
-FAULT = {"idx": -1, "stage": -1, "count": 0, "vcount": 0, "pcount": 0}
+FAULT = {"idx": -1, "stage": -1, "count": 0, "vcount": 0, "pcount": 0, "ccount": 0, "met": True}
 
 
-def _arm(idx, stage):
-    FAULT.update(idx=idx, stage=stage, count=0, vcount=0, pcount=0)
+def _arm(idx, stage, met=True):
+    FAULT.update(idx=idx, stage=stage, count=0, vcount=0, pcount=0, ccount=0, met=met)
 
 
 def step(state, instruction, shots):
@@ -112,19 +112,26 @@ def param_fn(x):
 
 
 def cond_fn(x):
-    return len(x) >= 0
+    if FAULT["stage"] == 3 and FAULT["ccount"] == FAULT["idx"]:
+        raise Boom("condition")
+    FAULT["ccount"] += 1
+    return FAULT["met"]
 
 
 def make_program(m, a, b, mpos, kind):
-    """G1 on m (parameter: callable / expression string / float), a measurement of mode m placed
-    at a symbolic position, G2 on (a, b) with a condition."""
-    phi = {0: 0.5, 1: param_fn, 2: "0.5"}[kind]
+    """G1 on m, a measurement of mode m at position mpos, a conditioned G2 on (a, b) with TWO
+    outcome-dependent parameters (callables / expression strings, the second string one failing for
+    kind 3), G1 on a with an expression parameter, and a final measurement registered without modes."""
+    phi = {0: 0.5, 1: param_fn, 2: "0.5", 3: "0.5"}[kind]
     g1 = G1(phi).on_modes(m)
-    g2 = G2(param_fn if kind == 1 else 0.3, 0.1).on_modes(a, b).when(cond_fn)
-    g3 = G1("x[0] * 0.5" if kind == 2 else 0.7).on_modes(a)
+    theta2, phi2 = {0: (0.3, 0.1), 1: (param_fn, param_fn), 2: ("0.25", "0.75"),
+                    3: ("0.25", "x[7] * 0.5")}[kind]
+    g2 = G2(theta2, phi2).on_modes(a, b).when(cond_fn)
+    g3 = G1("0.5" if kind >= 2 else 0.7).on_modes(a).when(cond_fn)
     meas = M().on_modes(m)
     ins = [g1, g2, g3]
     ins.insert(mpos, meas)
+    ins.append(M())
     return pq.Program(instructions=ins)
 
 
@@ -141,16 +148,16 @@ def snapshot(prog, init, cfg):
 def run(prog, init, cfg, shots, d=4):
     sim = Sim(d=d, config=cfg)
     r = sim.execute(prog, shots=shots, initial_state=init)
-    return [(b.outcome, b.frequency, tuple(b.state.data)) for b in r.branches]
+    return [(b.outcome, b.frequency, tuple(b.state.data) if b.state is not None else None) for b in r.branches]
 
 
-def unchanged_after_failure(m: int, a: int, b: int, mpos: int, kind: int, idx: int, stage: int, shots: int) -> bool:
+def unchanged_after_failure(m, a, b, mpos, kind, idx, stage, shots, met=True):
     prog = make_program(m, a, b, mpos, kind)
     cfg = Config(cutoff=5, hbar=1.5)
     init = DummyState(4, NumpyConnector(), cfg)
     init.data[0] = 7
     before = snapshot(prog, init, cfg)
-    _arm(idx, stage)
+    _arm(idx, stage, met)
     try:
         run(prog, init, cfg, shots)
     except (Boom, PiquassoException, ValueError):
@@ -158,20 +165,20 @@ def unchanged_after_failure(m: int, a: int, b: int, mpos: int, kind: int, idx: i
     return snapshot(prog, init, cfg) == before
 
 
-def reexecution_same_outcome(m: int, a: int, b: int, mpos: int, kind: int, idx: int, stage: int) -> bool:
+def reexecution_same_outcome(m, a, b, mpos, kind, idx, stage, met=True):
     prog = make_program(m, a, b, mpos, kind)
     fresh = make_program(m, a, b, mpos, kind)
-    _arm(idx, stage)
+    _arm(idx, stage, met)
     try:
         run(prog, None, None, 1)
     except (Boom, PiquassoException, ValueError):
         pass
-    _arm(-1, -1)
+    _arm(-1, -1, met)
     try:
         second = ("ok", run(prog, None, None, 1))
     except (PiquassoException, ValueError) as e:
         second = ("exc", type(e).__name__)
-    _arm(-1, -1)
+    _arm(-1, -1, met)
     try:
         ref = ("ok", run(fresh, None, None, 1))
     except (PiquassoException, ValueError) as e:
@@ -179,20 +186,23 @@ def reexecution_same_outcome(m: int, a: int, b: int, mpos: int, kind: int, idx: 
     return second == ref
 
 
-def unchanged_after_success(m: int, a: int, b: int, mpos: int, kind: int, shots: int) -> bool:
+def unchanged_after_success(m, a, b, mpos, kind, shots, met=True):
     prog = make_program(m, a, b, mpos, kind)
     cfg = Config(cutoff=5, hbar=1.5)
     init = DummyState(4, NumpyConnector(), cfg)
     before = snapshot(prog, init, cfg)
-    _arm(-1, -1)
-    try:
-        run(prog, init, cfg, shots)
-    except (PiquassoException, ValueError):
-        pass
-    return snapshot(prog, init, cfg) == before
+    _arm(-1, -1, met)
+    ok = True
+    for _ in range(2):      # twice: the objects must not drift from run to run
+        try:
+            run(prog, init, cfg, shots)
+        except (PiquassoException, ValueError):
+            pass
+        ok = ok and snapshot(prog, init, cfg) == before
+    return ok
 
 
-def validate_and_copy_leave_program_unchanged(m: int, a: int, b: int, mpos: int, kind: int) -> bool:
+def validate_and_copy_leave_program_unchanged(m, a, b, mpos, kind):
     prog = make_program(m, a, b, mpos, kind)
     before = snapshot(prog, None, None)
     try:
@@ -213,32 +223,38 @@ PRE3 = "0 <= m <= 3 and 0 <= a <= 3 and 0 <= b <= 3 and a != b and m != a and m 
 
 def wrappers(tier):
     """the symbolic quantifier is split: (parameter kind, stage, measurement position) are enumerated as
-    separate conditions, modes / crash index / shots stay symbolic in each."""
+    separate conditions; modes, crash index, the truth of the conditions (and shots in the thorough
+    tier) stay symbolic in each."""
     parts, conds = [], []
-    for kind in range(3):
-        for mpos in range(4):
-            for stage in range(3):
+    mposs = (0, 2) if tier == "quick" else (0, 1, 2, 3)
+    smax = 1 if tier == "quick" else 2
+    stages = ["validate", "parameter resolution", "simulation step", "condition evaluation"]
+    kinds = ["float", "callable (two per gate)", "expression string (two per gate)", "expression string, second one fails"]
+    for kind in range(4):
+        for mpos in mposs:
+            for stage in range(4):
                 fn = "uaf_k%d_p%d_s%d" % (kind, mpos, stage)
-                parts.append('def %s(m: int, a: int, b: int, idx: int, shots: int) -> bool:\n    """\n    pre: %s\n    pre: 0 <= idx <= 4 and 1 <= shots <= %d\n    post: _\n    """\n'
-                             '    return unchanged_after_failure(m, a, b, %d, %d, idx, %d, shots)\n\n' % (fn, PRE3, 1 if tier == "quick" else 2, mpos, kind, stage))
-                conds.append({"fn": fn, "timeout_s": 100 if kind == 2 else 60, "desc": "caller's objects unchanged after an exception at a symbolic instruction index; stage=%s, parameter kind=%s, measurement at position %d; symbolic modes and shots"
-                              % (["validate", "parameter resolution", "simulation step"][stage], ["float", "callable", "expression string"][kind], mpos)})
+                parts.append('def %s(m: int, a: int, b: int, idx: int, shots: int, met: bool) -> bool:\n    """\n    pre: %s\n    pre: 0 <= idx <= 5 and 1 <= shots <= %d\n    post: _\n    """\n'
+                             '    return unchanged_after_failure(m, a, b, %d, %d, idx, %d, shots, met)\n\n' % (fn, PRE3, smax, mpos, kind, stage))
+                conds.append({"fn": fn, "timeout_s": 100 if kind >= 2 else 70, "desc": "caller's objects unchanged after an exception at a symbolic instruction index; stage=%s, parameter kind=%s, measurement at position %d; symbolic modes, condition truth%s"
+                              % (stages[stage], kinds[kind], mpos, "" if smax == 1 else ", shots")})
                 if tier == "quick" and stage != 2:
                     continue
                 fn = "rex_k%d_p%d_s%d" % (kind, mpos, stage)
-                parts.append('def %s(m: int, a: int, b: int, idx: int) -> bool:\n    """\n    pre: %s\n    pre: 0 <= idx <= 4\n    post: _\n    """\n'
-                             '    return reexecution_same_outcome(m, a, b, %d, %d, idx, %d)\n\n' % (fn, PRE3, mpos, kind, stage))
-                conds.append({"fn": fn, "timeout_s": 100 if kind == 2 else 60, "desc": "re-execution after a failed run equals a fresh program; stage=%d kind=%d mpos=%d" % (stage, kind, mpos)})
+                parts.append('def %s(m: int, a: int, b: int, idx: int, met: bool) -> bool:\n    """\n    pre: %s\n    pre: 0 <= idx <= 5\n    post: _\n    """\n'
+                             '    return reexecution_same_outcome(m, a, b, %d, %d, idx, %d, met)\n\n' % (fn, PRE3, mpos, kind, stage))
+                conds.append({"fn": fn, "timeout_s": 100 if kind >= 2 else 70, "desc": "re-execution after a failed run equals a fresh program; stage=%s kind=%s mpos=%d" % (stages[stage], kinds[kind], mpos)})
             fn = "uas_k%d_p%d" % (kind, mpos)
-            parts.append('def %s(m: int, a: int, b: int, shots: int) -> bool:\n    """\n    pre: %s\n    pre: 1 <= shots <= %d\n    post: _\n    """\n'
-                         '    return unchanged_after_success(m, a, b, %d, %d, shots)\n\n' % (fn, PRE3, 1 if tier == "quick" else 3, mpos, kind))
-            conds.append({"fn": fn, "timeout_s": 100 if kind == 2 else 60, "desc": "caller's objects unchanged after a normal return; kind=%d mpos=%d" % (kind, mpos)})
-            fn = "vc_k%d_p%d" % (kind, mpos)
-            parts.append('def %s(m: int, a: int, b: int) -> bool:\n    """\n    pre: 0 <= m <= 5 and 0 <= a <= 5 and 0 <= b <= 5 and a != b\n    post: _\n    """\n'
-                         '    return validate_and_copy_leave_program_unchanged(m, a, b, %d, %d)\n\n' % (fn, mpos, kind))
-            conds.append({"fn": fn, "timeout_s": 60, "desc": "validate (incl. rejected programs) and copy leave the program unchanged; kind=%d mpos=%d" % (kind, mpos)})
-    parts.append('def twin_uaf(m: int, a: int, b: int, idx: int, shots: int) -> bool:\n    """\n    pre: %s\n    pre: 0 <= idx <= 4 and 1 <= shots <= 2\n    post: False\n    """\n'
-                 '    return unchanged_after_failure(m, a, b, 1, 1, idx, 2, shots)\n\n' % PRE3)
+            parts.append('def %s(m: int, a: int, b: int, shots: int, met: bool) -> bool:\n    """\n    pre: %s\n    pre: 1 <= shots <= %d\n    post: _\n    """\n'
+                         '    return unchanged_after_success(m, a, b, %d, %d, shots, met)\n\n' % (fn, PRE3, 1 if tier == "quick" else 3, mpos, kind))
+            conds.append({"fn": fn, "timeout_s": 100 if kind >= 2 else 70, "desc": "caller's objects unchanged after one and after two normal executions (no drift); kind=%s mpos=%d, symbolic condition truth" % (kinds[kind], mpos)})
+            if kind <= 2:
+                fn = "vc_k%d_p%d" % (kind, mpos)
+                parts.append('def %s(m: int, a: int, b: int) -> bool:\n    """\n    pre: 0 <= m <= 5 and 0 <= a <= 5 and 0 <= b <= 5 and a != b\n    post: _\n    """\n'
+                             '    return validate_and_copy_leave_program_unchanged(m, a, b, %d, %d)\n\n' % (fn, mpos, kind))
+                conds.append({"fn": fn, "timeout_s": 60, "desc": "validate (incl. rejected programs) and copy leave the program unchanged; kind=%s mpos=%d" % (kinds[kind], mpos)})
+    parts.append('def twin_uaf(m: int, a: int, b: int, idx: int, shots: int) -> bool:\n    """\n    pre: %s\n    pre: 0 <= idx <= 5 and 1 <= shots <= 1\n    post: False\n    """\n'
+                 '    return unchanged_after_failure(m, a, b, 2, 1, idx, 2, shots, True)\n\n' % PRE3)
     conds.append({"fn": "twin_uaf", "twin": True, "timeout_s": 60})
     return "".join(parts), conds
 
@@ -268,7 +284,7 @@ def run(rep, tier, seed, opts):
     rep.stubs += ["simulation steps -> stubs that mutate the working state in place and raise at the armed crash point",
                   "Instruction._validate of the harness' gate classes -> raises at the armed crash point",
                   "callable parameter -> raises at the armed crash point (wrapped by _resolve_params into InvalidParameter)"]
-    rep.bounds = {"instructions": 4, "modes": "symbolic in 0..3 on d=4", "crash index": "0..4", "stages": 3, "shots": "1..2 (failure), 1..3 (success)",
+    rep.bounds = {"instructions": 5, "modes": "symbolic in 0..3 on d=4", "crash index": "0..5", "stages": 4, "shots": "1..2 (failure), 1..3 (success)",
                   "parameter kinds": ["float", "callable", "expression string"],
                   "outside": "numpy array parameters, TF/JAX tensors, native kernels' input buffers (see C04/E-LL), real simulation steps"}
     ch.run_conditions(rep, source, conds, timeout_s=120, per_path=20, jobs=opts.get("jobs"))
